@@ -12,6 +12,7 @@ import itertools
 from .. import core, harness, vloop
 
 PROP = 'C12'
+TECHNIQUE = ('runtime monitoring: virtual-time history of puts, coroutine runs, result events and output changes checked by exactly-once / ordering / causality rules and exact per-mode timing rules')
 LEVEL = 'exploration'
 RULE = ("case = (mode cancel/wait/start (long and abbreviated names), guard_time in {None, g}, "
         "stop_data present/absent, arrival pattern of <=4 puts at instants of a virtual time grid "
